@@ -80,6 +80,7 @@ func main() {
 	noReplay := flag.Bool("noreplay", false, "skip native replay (development only; never used by registered commands)")
 	paramOv := flag.String("param", "", "override params k=v,k=v (development)")
 	secOv := flag.Int("seconds", 0, "override per-harness deadline (development)")
+	replayPath := flag.String("replay", "", "replay a recorded counterexample natively against /repo")
 	flag.Parse()
 	if flag.NArg() < 1 {
 		fatal(2, "usage: vcheck <property> [--tier quick|thorough]")
@@ -95,7 +96,11 @@ func main() {
 		noReplay = fs.Bool("noreplay", *noReplay, "")
 		paramOv = fs.String("param", *paramOv, "")
 		secOv = fs.Int("seconds", *secOv, "")
+		replayPath = fs.String("replay", *replayPath, "")
 		fs.Parse(flag.Args()[1:])
+	}
+	if *replayPath != "" {
+		os.Exit(doReplay(prop, *replayPath))
 	}
 	if *tier == "" {
 		*tier = os.Getenv("VERIF_TIER")
@@ -492,6 +497,52 @@ func (r *replayer) run(replayPath string, v sym.Violation) (bool, string) {
 		return true, out
 	}
 	return false, out
+}
+
+// doReplay runs one recorded counterexample natively; exit 1 (with a VIOLATION line) if it reproduces.
+func doReplay(prop, path string) int {
+	b, err := os.ReadFile(path)
+	if err != nil {
+		fmt.Println("ERROR", err)
+		return 2
+	}
+	var rf replayFile
+	if err := json.Unmarshal(b, &rf); err != nil {
+		fmt.Println("ERROR", err)
+		return 2
+	}
+	var reg map[string]propReg
+	rb, _ := os.ReadFile(filepath.Join(verifDir, "harness", "registry.json"))
+	json.Unmarshal(rb, &reg)
+	pr, ok := reg[prop]
+	if !ok {
+		fmt.Println("ERROR unknown property", prop)
+		return 2
+	}
+	var h harnessReg
+	for _, x := range pr.Harnesses {
+		if x.Func == rf.Harness {
+			h = x
+		}
+	}
+	if h.Func == "" {
+		fmt.Println("ERROR harness not registered:", rf.Harness)
+		return 2
+	}
+	rp, err := newReplayer(prop, h, pr.Files)
+	if err != nil {
+		fmt.Println("ERROR", err)
+		return 2
+	}
+	defer rp.close()
+	okr, out := rp.run(path, sym.Violation{Kind: rf.Kind, Label: rf.Label})
+	fmt.Println(out)
+	if okr {
+		fmt.Printf("VIOLATION property=%s replay=%s\n", prop, path)
+		return 1
+	}
+	fmt.Println("replay does not reproduce a violation on the current tree")
+	return 0
 }
 
 // ---------- evidence ----------
